@@ -55,6 +55,11 @@ pub struct Hb {
     clocks: Vec<Vc>,
     finals: HashMap<usize, Vc>,
     rel: HashMap<u64, Vc>,
+    /// fences (C++ [atomics.fences]): per task, the release clocks of everything it has read with
+    /// a non-acquire operation (an acquire fence turns them into edges), and its clock at its
+    /// last release fence (a later relaxed store / RMW releases that clock)
+    pend_acq: HashMap<usize, Vc>,
+    fence_rel: HashMap<usize, Vc>,
     acc: HashMap<u32, Acc>, // by tracked block id
     pub races: Vec<String>,
     pub probes: Probes,
@@ -118,8 +123,40 @@ impl Hb {
         let e = self.rel.entry(loc).or_default();
         join(e, &c);
     }
-    fn relaxed_store(&mut self, loc: u64) {
-        self.rel.remove(&loc);
+    fn relaxed_store(&mut self, t: usize, loc: u64) {
+        // a plain store ends the release sequence it overwrites; after a release fence by the
+        // same task it heads a new one that carries the fence's clock
+        match self.fence_rel.get(&t).cloned() {
+            Some(fc) => {
+                self.rel.insert(loc, fc);
+            }
+            None => {
+                self.rel.remove(&loc);
+            }
+        }
+    }
+    fn relaxed_rmw(&mut self, t: usize, loc: u64) {
+        // continues the release sequence; after a release fence it also releases the fence's clock
+        if let Some(fc) = self.fence_rel.get(&t).cloned() {
+            let e = self.rel.entry(loc).or_default();
+            join(e, &fc);
+        }
+    }
+    fn relaxed_read(&mut self, t: usize, loc: u64) {
+        if let Some(r) = self.rel.get(&loc).cloned() {
+            join(self.pend_acq.entry(t).or_default(), &r);
+        }
+    }
+    fn fence(&mut self, t: usize, acq: bool, rel: bool) {
+        if acq {
+            if let Some(p) = self.pend_acq.get(&t).cloned() {
+                join(self.clock(t), &p);
+            }
+        }
+        if rel {
+            let c = self.clock(t).clone();
+            self.fence_rel.insert(t, c);
+        }
     }
 
     /// An access by task `t` to bytes [lo, hi) of tracked block `blk`; `write` = mutation
@@ -308,6 +345,8 @@ fn record(addr: usize, loc: u64, kind: &'static str, acq: bool, rel: bool, is_st
         // non-racing) use of that block which must happen-before its deallocation
         if acq {
             h.acquire(t, loc);
+        } else if !is_store {
+            h.relaxed_read(t, loc);
         }
         #[cfg(feature = "simalloc")]
         if let Some(b) = blk {
@@ -322,11 +361,13 @@ fn record(addr: usize, loc: u64, kind: &'static str, acq: bool, rel: bool, is_st
             if rel {
                 h.release_store(t, loc);
             } else {
-                h.relaxed_store(loc);
+                h.relaxed_store(t, loc);
             }
         } else if is_rmw {
             if rel {
                 h.release_rmw(t, loc);
+            } else {
+                h.relaxed_rmw(t, loc);
             }
         }
         // reach probes
@@ -347,6 +388,23 @@ fn record(addr: usize, loc: u64, kind: &'static str, acq: bool, rel: bool, is_st
         let _ = addr;
     });
 }
+
+/// `fence` of the seam: a scheduling point for the simulator and an event for the ledger.
+pub fn fence(o: Ordering) {
+    let p = pre();
+    sh::fence(o);
+    shuttle::thread::yield_now();
+    with(|h| {
+        h.atomic_ops += 1;
+        if h.enabled {
+            let t = h.cur;
+            h.fence(t, is_acq(o), is_rel(o));
+            h.hit("fence");
+        }
+    });
+    post(p);
+}
+pub use std::sync::atomic::compiler_fence;
 
 pub struct AtomicUsize {
     inner: sh::AtomicUsize,
@@ -427,6 +485,46 @@ impl AtomicUsize {
     pub fn compare_exchange_weak(&self, cur: usize, new: usize, s: Ordering, f: Ordering) -> Result<usize, usize> {
         self.compare_exchange(cur, new, s, f)
     }
+    // the rest of std's AtomicUsize surface, so that a change to the crate that uses it still builds
+    pub fn into_inner(self) -> usize {
+        let mut s = self;
+        *s.get_mut()
+    }
+    pub fn fetch_and(&self, v: usize, o: Ordering) -> usize {
+        self.rmw(o, |x| x & v)
+    }
+    pub fn fetch_nand(&self, v: usize, o: Ordering) -> usize {
+        self.rmw(o, |x| !(x & v))
+    }
+    pub fn fetch_or(&self, v: usize, o: Ordering) -> usize {
+        self.rmw(o, |x| x | v)
+    }
+    pub fn fetch_xor(&self, v: usize, o: Ordering) -> usize {
+        self.rmw(o, |x| x ^ v)
+    }
+    pub fn fetch_max(&self, v: usize, o: Ordering) -> usize {
+        self.rmw(o, |x| x.max(v))
+    }
+    pub fn fetch_min(&self, v: usize, o: Ordering) -> usize {
+        self.rmw(o, |x| x.min(v))
+    }
+    pub fn fetch_update<F: FnMut(usize) -> Option<usize>>(&self, set: Ordering, fetch: Ordering, mut f: F) -> Result<usize, usize> {
+        let mut prev = self.load(fetch);
+        while let Some(next) = f(prev) {
+            match self.compare_exchange_weak(prev, next, set, fetch) {
+                x @ Ok(_) => return x,
+                Err(now) => prev = now,
+            }
+        }
+        Err(prev)
+    }
+    fn rmw(&self, o: Ordering, f: impl Fn(usize) -> usize) -> usize {
+        let p = pre();
+        let r = self.inner.fetch_update(o, Ordering::SeqCst, |x| Some(f(x))).unwrap_or_else(|x| x);
+        record(self.addr(), self.loc(), "rmw", is_acq(o), is_rel(o), false, true, None);
+        post(p);
+        r
+    }
 }
 impl std::fmt::Debug for AtomicUsize {
     fn fmt(&self, f: &mut std::fmt::Formatter<'_>) -> std::fmt::Result {
@@ -498,6 +596,20 @@ impl<T> AtomicPtr<T> {
     }
     pub fn compare_exchange_weak(&self, cur: *mut T, new: *mut T, s: Ordering, f: Ordering) -> Result<*mut T, *mut T> {
         self.compare_exchange(cur, new, s, f)
+    }
+    pub fn into_inner(self) -> *mut T {
+        let mut s = self;
+        *s.get_mut()
+    }
+    pub fn fetch_update<F: FnMut(*mut T) -> Option<*mut T>>(&self, set: Ordering, fetch: Ordering, mut f: F) -> Result<*mut T, *mut T> {
+        let mut prev = self.load(fetch);
+        while let Some(next) = f(prev) {
+            match self.compare_exchange_weak(prev, next, set, fetch) {
+                x @ Ok(_) => return x,
+                Err(now) => prev = now,
+            }
+        }
+        Err(prev)
     }
 }
 impl<T> std::fmt::Debug for AtomicPtr<T> {
